@@ -153,7 +153,9 @@ CHECKS["C06"] = dict(
        "~800 interesting code points. 'For any characters at all' is therefore sampled, hence exploration. Proved part (G9, VCs over "
        "all arguments): the four constructors raise exactly the documented exceptions (single character / token, start < end by code "
        "point, at least one argument) and hand '[...]' / '[^...]' with exactly the requested characters, each special one escaped, "
-       "to __Class.__init__ (ghost CLASSARG).",
+       "to __Class.__init__ (ghost CLASSARG); __Class.__init__, __process and its merging step __chars_to_ranges are proved to keep "
+       "what the bracket text lists (verbose text), relative to the parsing / printing assumptions of the text layer "
+       "(__extract_classes, __modify_classes, join of escaped items) - which is what B2 then checks end to end.",
   note="R7 about bracket expressions; specs/charsets.py written from the documentation / Unicode block definitions; Unicode surplus of "
        "\\d \\s \\w masked as the property allows.",
   technique="complete finite decision over all code points for the named classes; contracts + VCs (z3) for the parametric constructors' validation and bracket text; bounded contract check (labelled) of what the class text layer makes of that text",
@@ -167,9 +169,10 @@ CHECKS["C07"] = dict(
        "themselves are proved over abstract item sets (their denotation): the result lists exactly the union / difference of what "
        "the operands list, EmptyClassException iff nothing is left, type-mix and global-word-character exceptions iff documented, "
        "Any absorbs; the operator methods (__or__, __ror__, __sub__, __rsub__, ~) are proved to convert single characters / tokens "
-       "to singleton classes, keep the operand order and raise the documented exception otherwise. What a bracket text lists "
-       "(class text re-parsing and printing: __extract_classes, __modify_classes, __process, __chars_to_ranges) is ASSUMED in those "
-       "proofs (uninterpreted TV(text) with three stated contracts) and checked only by the bounded stand-ins B2/B3 (39-class pool, "
+       "to singleton classes, keep the operand order and raise the documented exception otherwise; __process / __Class.__init__ / "
+       "__chars_to_ranges are proved to keep what a bracket text lists. What a bracket text lists "
+       "(class text re-parsing and printing: __extract_classes, __modify_classes, __split_range, joining escaped items) is ASSUMED in those "
+       "proofs (uninterpreted TV(text) with stated contracts) and checked only by the bounded stand-ins B2/B3 (39-class pool, "
        "all pairs, nested expressions, several hash seeds) - that part is exploration and is what a reader must discount.",
   note="E3/E6/E7 encodings; assumed contract of __split_range; R7; quantified VCs discharged by z3 (sets as predicates with "
        "triggers, equalities as two skolemised inclusions); obligations.lock marks regressions of quantified obligations.",
